@@ -70,6 +70,8 @@ def main():
     from crosshair.util import add_to_pypath
     from crosshair.pure_importer import prefer_pure_python_imports
 
+    import harness  # noqa: F401  (package must be in sys.modules for CrossHair option lookup)
+
     modname = "harness." + os.path.splitext(os.path.basename(path))[0]
     with prefer_pure_python_imports():
         spec = importlib.util.spec_from_file_location(modname, path)
@@ -114,6 +116,7 @@ def main():
                 "message": worst.message[:2000],
                 "args": jsonable(args) if args is not None else None,
                 "state": st.name,
+                "traceback": (worst.traceback or "")[-1800:] if status == "refuted" and st != MessageType.POST_FAIL else "",
             }
     result["paths"] = int(stats.get("num_paths", 0))
     result["solver_checks"] = plugin.STATS["solver_checks"]
